@@ -15,6 +15,7 @@ func checkC18(c *Ctx) {
 	r := c.R
 	r.Rule("R18.1", "every reported path is hardened: every store to Source.File is the result of checkpath applied to the frame's file; Safety/SafetyFiles return only checkpath results; the raw stack dumper is unreachable from the logging entry points")
 	r.Rule("R18.2", "replacement structure: under the privacy flag the loop over the known-path table tests HasPrefix(current, k) and rewrites the CURRENT value with that same k and its v; every later rewrite step (home directory, regexp table, /Volumes) also takes the current value as its subject, never the original argument; the value returned derives from the current value, or is the shorter relative path under IsAbs(current) and a strictly-shorter test")
+	r.Rule("R18.7", "every frame's file name goes through the hardening: wherever the package reads runtime.Frame.File or the file result of (*runtime.Func).FileLine, the value is used only as the argument of checkpath (diagnostic stack dumps outside the record path excepted)")
 	r.Rule("R18.3", "no explicit failure: every slice expression in checkpath is justified by a dominating prefix/index test on the same string; no panic; no regexp compilation on the hardening path")
 	r.Rule("R18.4", "the home directory stays protected: checkpath rewrites the home prefix from the homeDir variable itself (not only through a table entry the public Remove/Reset functions can drop), under the privacy flag")
 	r.Rule("R18.6", "registrations are kept: AddKnownPathMapping stores knownPathMap[pathname] = repl on every path; RemoveKnownPathMapping deletes exactly the key given")
@@ -33,6 +34,7 @@ func checkC18(c *Ctx) {
 		c18Check(c, p, m)
 		registrationStores(c, p, m)
 		regexpRuleList(c, p)
+		frameFilesHardened(c, p, m)
 	}
 	c.Floor["R18.1"] = 4
 	c.Floor["R18.2"] = 4
